@@ -86,18 +86,30 @@ def run(ctx):
                 a = v.call_args(bb)
                 good = good and tfield(item, 0)(a[1])
                 sh = a[2]
-                good = good and mentions(sh, lambda s: is_call(s, name="evaluate_polynomial") and tfield(item, 0)(s[2][0]))
+                good = good and mentions(sh, lambda s: is_call(s, name="evaluate_polynomial") and tfield(item, 0)(strip_newtype_fields(s[2][0])))
             ctx.check(good, "LOOPDOM", p2.key, "G21:share-for-sender-after-its-proof",
                       "a round-two share is produced (or filed under another identifier) without the same sender's "
                       "proof of knowledge having been verified", p2.loc)
         reductions(ctx, p2.key, adaptors={}, min_loops=2)
     vp = ctx.anchor(DKG + "verify_proof_of_knowledge")
-    ch = ctx.anchor(DKG + "challenge")
+    cp = ctx.anchor(DKG + "compute_proof_of_knowledge")
+    # the proof-of-knowledge challenge, found by what it is (the Ok payload of a private helper that hashes with HDKG), not by the
+    # helper's name or signature
+    cv = pok_challenge(P, vp) if vp else None
+    cc = pok_challenge(P, cp) if cp else None
+    ser_of = lambda inner: (lambda x: (x[0] == "ok" and is_call(x[1], name="serialize") and inner(x[1][2][0])) or
+                            (is_call(x, name="serialize") and inner(x[2][0])))
     if vp:
         v = FnView.get(P, vp)
         vk = lambda t: t[0] == "ok" and is_call(t[1], name="verifying_key") and t[1][2][0] == ("arg", 2)
-        chal = lambda t: t[0] == "ok" and is_call(t[1], name="challenge") and t[1][2][0] == ("arg", 1) and \
-            vk(t[1][2][1]) and fld(arg(3), "R")(t[1][2][2])
+        phi0 = lambda t: vk(strip_newtype_fields(t)) or vk(t)
+        bound = cv is not None and len(cv["parts"]) == 3 and ser_of(lambda x: strip_newtype_fields(x) == ("arg", 1))(cv["parts"][0]) and \
+            ser_of(phi0)(cv["parts"][1]) and ser_of(fld(arg(3), "R"))(cv["parts"][2])
+        ctx.check(bound, "COVER", vp.key, "HDKG-binds-identifier,phi0,R",
+                  "the verifier's proof-of-knowledge challenge must be HDKG(identifier || constant-term commitment || R) for the "
+                  "sender's identifier, the sender's commitment and the proof's R (found %s)"
+                  % ([fmt(p)[:50] for p in cv["parts"]] if cv else "no HDKG-based challenge"), vp.loc)
+        chal = lambda t: cv is not None and (t == cv["term"] or (t[0] == "field" and t[3] == "0" and t[1] == cv["term"]))
         eqn = cmp_fact("eq", fld(arg(3), "R"),
                        lambda t: mentions(t, fld(arg(3), "z")) and mentions(t, chal) and mentions(t, vk), False)
         refusal(ctx, vp, "SEP", "G22:proof-equation-gates-Ok", [("R==G*mu-phi0*c", eqn)], ok_sinks(vp))
@@ -107,33 +119,17 @@ def run(ctx):
         ctx.check(good, "PROV", vp.key, "G22:culprit-is-identifier",
                   "an invalid proof must be reported as InvalidProofOfKnowledge{culprit: the identifier argument}",
                   vp.loc)
-    if ch:
-        v = FnView.get(P, ch)
-        rt = v.cx.local(0)
-        h = [s for s in subterms(rt) if is_call(s, name="HDKG")]
-        good = False
-        if h:
-            pre = h[0][2][0]
-            good = (mentions(pre, lambda s: mentions(s, arg(1)) and (is_call(s, name="serialize")))
-                    and mentions(pre, lambda s: is_call(s, name="serialize") and mentions(s[2][0], arg(2)))
-                    and mentions(pre, lambda s: is_call(s, name="serialize") and s[2][0] == ("arg", 3)))
-        ctx.check(good, "COVER", ch.key, "HDKG-binds-identifier,phi0,R",
-                  "the proof-of-knowledge challenge preimage must contain the identifier, the constant-term "
-                  "commitment and R", ch.loc)
-        cp = P.fns.get(DKG + "compute_proof_of_knowledge")
-        both = cp is not None and vp is not None and all(
-            any(ci and ci.get("path") == ch.key for (_, _, ci) in f.calls()) for f in (cp, vp))
-        ctx.check(both, "CALL", ch.key, "prover-and-verifier-share-one-challenge",
+    if cp:
+        ctx.check(cc is not None and cv is not None and cc["helper"] == cv["helper"], "CALL", cp.key, "prover-and-verifier-share-one-challenge",
                   "compute_proof_of_knowledge and verify_proof_of_knowledge must derive the challenge through the same "
-                  "function", ch.loc)
-        if cp:
-            vc = FnView.get(P, cp)
-            good = False
-            for (bb, t, ci) in vc.calls_named("challenge"):
-                a = vc.call_args(bb)
-                good = a[0] == ("arg", 1) and mentions(a[1], lambda s: is_call(s, name="verifying_key") and s[2][0] == ("arg", 3))
-            ctx.check(good, "PROV", cp.key, "proof-made-for-own-identifier-and-commitment",
-                      "the proof of knowledge is not computed for (own identifier, own commitment)", cp.loc)
+                  "function", cp.loc)
+        own_vk = lambda t: (lambda u: u[0] == "ok" and is_call(u[1], name="verifying_key") and u[1][2][0] == ("arg", 3))(strip_newtype_fields(t))
+        nonceR = lambda t: t[0] == "field" and t[3] == "1" and is_call(t[1], name="generate_nonce")
+        good = cc is not None and len(cc["parts"]) == 3 and ser_of(lambda x: strip_newtype_fields(x) == ("arg", 1))(cc["parts"][0]) and \
+            ser_of(own_vk)(cc["parts"][1]) and ser_of(nonceR)(cc["parts"][2])
+        ctx.check(good, "PROV", cp.key, "proof-made-for-own-identifier-and-commitment",
+                  "the proof of knowledge is not computed for (own identifier, own commitment, own nonce commitment): %s"
+                  % ([fmt(p)[:50] for p in cc["parts"]] if cc else "no HDKG-based challenge"), cp.loc)
     pok_kernel(ctx)
     p3 = ctx.anchor(DKG + "part3")
     if p3:
@@ -232,6 +228,30 @@ def run(ctx):
         reductions(ctx, p3.key, adaptors={}, min_loops=1)
 
 
+def pok_challenge(P, f):
+    """the proof-of-knowledge challenge inside f: a term ok(helper(..)) whose Ok payload is HDKG(preimage) —
+    dict(term, helper (path), parts (ordered preimage parts in f's vocabulary)) or None"""
+    from ..seq import flatten
+    v = FnView.get(P, f)
+    seen = []
+    for (e, fa) in v.own_facts:
+        if fa[0] == "succ" and fa[2]:
+            Y = peel_result(fa[1])
+            if is_call(Y) and Y not in seen:
+                seen.append(Y)
+    for Y in seen:
+        H = P.fns.get(Y[1])
+        if H is None or not H.has_body or not H.crate.startswith("frost") or H.j.get("vis") == "Public":
+            continue
+        hv = FnView(P, H, {i + 1: a for i, a in enumerate(Y[2])}, (Y[3],))
+        for pay in ok_values(H, hv):
+            pay = unwrap_newtypes(pay)
+            hs = [s_ for s_ in subterms(pay) if is_call(s_, name="HDKG")]
+            if len(hs) == 1 and len(hs[0][2]) == 1:
+                return {"term": ("ok", Y), "helper": Y[1], "parts": flatten(hs[0][2][0])}
+    return None
+
+
 def pok_kernel(ctx):
     """prover: (R, mu) = (G*k, k + a0*c); verifier: R == G*mu - phi0*c with phi0 = G*a0 — must be an identity"""
     from .. import algebra
@@ -248,7 +268,8 @@ def pok_kernel(ctx):
         ctx.violation("H", vp.key, "pok-kernel:shape", "proof construction / verification equation not found", vp.loc)
         return
     nonce = lambda i: (lambda x: x[0] == "field" and x[3] == str(i) and is_call(x[1], name="generate_nonce"))
-    chal = lambda x: x[0] == "field" and x[3] == "0" and x[1][0] == "ok" and is_call(x[1][1], name="challenge")
+    cvs = [c for c in (pok_challenge(P, cp), pok_challenge(P, vp)) if c]
+    chal = lambda x: any(x == c["term"] or (x[0] == "field" and x[3] == "0" and x[1] == c["term"]) for c in cvs)
     try:
         ap = Alg([(nonce(0), ("scal", "k")), (nonce(1), ("elem", "Rk")), (chal, ("scal", "c")),
                   (lambda x: x[0] == "some" and is_call(x[1], name="first") and x[1][2][0] == ("arg", 2), ("scal", "a0"))])
